@@ -251,8 +251,8 @@ func c17Exec(x *Ctx) {
 				}
 				return fmt.Sprintf("new-%d", k)
 			}
-			kind := r.Intn(11)
-			if !dotu && (kind == 2 || kind == 3) {
+			kind := r.Intn(12)
+			if !dotu && (kind == 2 || kind == 3 || kind == 11) {
 				kind = 0
 			}
 			directed := c.cfg("directed") != 0 && k == 0
@@ -567,6 +567,34 @@ func c17Exec(x *Ctx) {
 					compare(what)
 					x.Probe("chmod")
 				}
+			case 11: // chown (9P2000.u carries numeric ids)
+				if len(files) == 0 {
+					continue
+				}
+				tgt := files[r.Intn(len(files))]
+				f, ok := walkTo(tgt)
+				if !ok {
+					continue
+				}
+				uid, gid := uint32(r.Pick(0, 1, 1000, 0xFFFFFFFF)), uint32(r.Pick(0, 2, 1000, 0xFFFFFFFF))
+				what := fmt.Sprintf("Twstat(%q, n_uid=%d, n_gid=%d)", tgt, uid, gid)
+				rr := mut(&Msg{Type: Twstat, Fid: f, Stat: nullStat(func(s *Stat) { s.Nuid, s.Ngid = uid, gid })})
+				if rr == nil || rr.M == nil {
+					return
+				}
+				if injected(rr.M, what, before, false) {
+					clunk(f)
+					syncTwin(A, B)
+					continue
+				}
+				var eb error
+				if uid != 0xFFFFFFFF || gid != 0xFFFFFFFF {
+					eb = os.Chown(filepath.Join(B, tgt), int(int32(uid)), int(int32(gid)))
+				}
+				c17Outcome(x, rr.M, eb, what, before, A, B, "", dotu)
+				clunk(f)
+				compare(what)
+				x.Probe("chown")
 			case 10: // mtime
 				if len(files) == 0 {
 					continue
